@@ -1262,11 +1262,26 @@ def check_case(ctx, c, got):
 def run(ctx):
     ok = ctx.proof_gate(gen_cb=regen)
     ctx.build_harness()
+    if not ok:
+        # a proof broke and make stopped: the proof-free model files are still needed by the evaluations below
+        ctx.coq_make(['-k', 'C06/Model.vo', 'C06/Lr.vo', 'C06/Actions.vo', 'C06/ActionsKinds.vo'])
     if not ok and any('TablesProofs' in b or 'proof-gate' in b for b in ctx.broken):
         try:
             tables_replay(ctx)
         except Exception as e:  # the model itself may not build any more
             ctx.notes.append('tables replay not possible: %r' % (e,))
+    if not ok:
+        # which rules no longer type on the regenerated grammar / tables (coq/C06/ActionsKinds.v has no proofs: it still builds)
+        try:
+            gf, af, su, bad = ctx.run_model('From Coq Require Import List ZArith String.\nFrom DV Require Import C06.ActionsKinds.\nImport ListNotations.\n',
+                                            ['(grammar_fits, arms_fit, sigs_uniform, bad_rules)'], tag='rules')[0]
+            if not (gf and af and su) or bad:
+                names = rule_action_names()
+                ctx.broken.append('stack typing of the rules (coq/C06/ActionsKinds.v) on the regenerated grammar: feel.y fits YY_R1/YY_R2: %s, reduce arms run the '
+                                 'actions feel.y names: %s, rules whose action does not find what the right-hand side leaves: %s'
+                                 % (gf, af, ['%d (%s)' % (r, names.get(r, 'no action')) for r in bad]))
+        except Exception as e:
+            ctx.notes.append('rule typing not evaluated: %r' % (e,))
     cases = gen_cases(ctx)
     # model side: for the trees of the operator fragment the Coq renderer and parser give the token lists and the tree after a removal
     frag_idx = {}
@@ -1449,5 +1464,5 @@ def replay(ctx, path):
 
 MANIFEST = dict(
     technique='Coq proof (round trip of a precedence-climbing Spec parser for all trees; finite theorem on the LALR tables regenerated from lalr.rs every run) with parser/model correspondence',
-    text='coq/Props/C06.v: the committed LALR tables, translated from feel-parser/src/lalr.rs on every run, are proved (vm_compute, bound stated) to build on every ordered pair and triple of operators the tree the Spec parser dictates; the Spec theorems hold for all trees of the operator fragment (no bound): both renderings round-trip (C06_roundtrip_*_tokens), and every pair of parentheses of the minimal rendering is needed (C06_needed_paren / C06_needed_paren_at / C06_all_needed, from the counting soundness invariant C06_min_rendering_minimal: any token list that parses to t has at least the parentheses of render_min t); string-literal decoding has its own model. The real lexer, driver and actions are tied to the Spec by parsing generated trees of the whole language in minimal / full / one-pair-removed renderings under token-preserving layouts and comparing AstNode trees. coq/C06/Actions.v models the whole parser on token lists (the loop of Parser::parse over the regenerated tables with all 90 reduce actions of parser.rs, selected by the action names read from lalr.rs): every generated case of every construct and directed inputs for types, external bodies, date and time literals and the six entry points are run through it and compared node by node with the real parser.',
-    note='Trusted: Coq kernel + vm_compute, lalr2coq.py, the Spec reading of feel.y lines 73-90, harness dv ast, Python renderer for binders/collections (not covered by the Spec theorems).')
+    text='coq/Props/C06.v: the committed LALR tables, translated from feel-parser/src/lalr.rs on every run, are proved (vm_compute, bound stated) to build on every ordered pair and triple of operators the tree the Spec parser dictates; the Spec theorems hold for all trees of the operator fragment (no bound): both renderings round-trip (C06_roundtrip_*_tokens), and every pair of parentheses of the minimal rendering is needed (C06_needed_paren / C06_needed_paren_at / C06_all_needed, from the counting soundness invariant C06_min_rendering_minimal: any token list that parses to t has at least the parentheses of render_min t); string-literal decoding has its own model. The real lexer, driver and actions are tied to the Spec by parsing generated trees of the whole language in minimal / full / one-pair-removed renderings under token-preserving layouts and comparing AstNode trees. coq/C06/Actions.v models the whole parser on token lists (the loop of Parser::parse over the regenerated tables with all 90 reduce actions of parser.rs, selected by the action names read from lalr.rs): every generated case of every construct and directed inputs for types, external bodies, date and time literals and the six entry points are run through it and compared node by node with the real parser. C06_actions_stack_safe: for every rule of feel.y (read with the tables on every run) the action of the rule, on every concrete node stack whose top has the kinds the right-hand side symbols are declared to leave, returns Ok and leaves what the left-hand side declares (no pop error, no index panic, no dropped node; abstract actions on node kinds proved sound for all stacks + sweep over the 150 rules); C06_list_roundtrip / C06_nested_lists_roundtrip: lists of every length and nesting round-trip through parse_full (induction through the list_tail actions over the regenerated tables).',
+    note='Trusted: Coq kernel + vm_compute, lalr2coq.py, the Spec reading of feel.y lines 73-90, harness dv ast, Python renderer for binders/collections (not covered by the Spec theorems), the reading of feel.y by lalr2coq.py (checked against YY_R1/YY_R2 and the reduce arms in Coq), the declared stack effects of the grammar symbols (checked by the sweep), the Python tokeniser feeding the full model. Not formalised: the LR-automaton invariant that would lift stack safety from rules to whole parses.')
